@@ -58,7 +58,12 @@ func (e *Engine) VerifRWBusy() bool {
 // startup code does), so fn sees uncommitted effects.
 func (e *Engine) VerifReadTx(fn func(Conn) error) error { return e.do(fn) }
 
-
+// VerifAbandon drops the engine without committing the open transaction (used after the files were copied for an
+// in-process crash image).
+func (e *Engine) VerifAbandon() {
+	e.stop()
+	_ = e.close(false, false)
+}
 
 // VerifPeek opens the database file at path with a plain connection (no engine), lets SQLite recover it, and runs fn.
 func VerifPeek(path string, fn func(Conn) error) error {
@@ -77,7 +82,6 @@ func VerifPeek(path string, fn func(Conn) error) error {
 	}
 	return err2
 }
-
 
 // VerifSetCommitEvery changes Options.CommitEvery of a running engine (the clock knob of
 // binlogEngineReplicaImpl.Apply: "more than CommitEvery since the last delayed commit").
